@@ -4,6 +4,9 @@ mod alphabet;
 mod cform;
 mod diff;
 mod engine;
+mod families;
+mod ladder;
+mod sweep;
 mod iana;
 mod props;
 mod refmodel;
@@ -12,6 +15,16 @@ mod wire;
 
 #[global_allocator]
 static A: alloc::Counting = alloc::Counting;
+
+static PANIC_NOTE: std::sync::Mutex<String> = std::sync::Mutex::new(String::new());
+
+/// wrap an exercise so that a panic inside it is reported with the note left by the panic hook
+fn with_note(f: fn(&families::Case, u64) -> sweep::Obs) -> impl Fn(&families::Case, u64) -> sweep::Obs + Sync + Send {
+    move |c, i| match std::panic::catch_unwind(std::panic::AssertUnwindSafe(|| f(c, i))) {
+        Ok(o) => o,
+        Err(_) => sweep::Obs { key: 0, panic: Some(PANIC_NOTE.lock().unwrap().clone()), meas: vec![], issues: vec![] },
+    }
+}
 
 fn main() {
     let args: Vec<String> = std::env::args().collect();
@@ -26,6 +39,7 @@ fn main() {
             let id = args.get(2).map(|s| s.as_str()).unwrap_or("");
             let tier = args.get(3).map(|s| s.as_str()).unwrap_or("quick");
             match id {
+                "C01" => props::c01::run(tier),
                 "C03" => props::c03::run(tier),
                 "C04" => props::c04::run(tier),
                 "C05" => props::c05::run(tier),
@@ -36,7 +50,54 @@ fn main() {
                 }
             }
         }
+        "ladder-timing" => {
+            ladder_timing();
+            0
+        }
+        "worker" => {
+            // nfmc worker <mode> <tier> <family-index> <start> <end> <progress> <out> <budget>
+            let mode = args[2].as_str();
+            let tier = args[3].as_str();
+            let fi: usize = args[4].parse().unwrap();
+            let start: u64 = args[5].parse().unwrap();
+            let end: u64 = args[6].parse().unwrap();
+            let budget: u64 = args[9].parse().unwrap();
+            std::panic::set_hook(Box::new(|info| {
+                // keep the location for the parent: "<stage> @ <file:line>: <message>"
+                let loc = info.location().map(|l| format!("{}:{}", l.file().rsplit("/src/").next().unwrap_or(l.file()), l.line())).unwrap_or_default();
+                let msg = info.payload().downcast_ref::<String>().cloned().or_else(|| info.payload().downcast_ref::<&str>().map(|s| s.to_string())).unwrap_or_default();
+                let stage = props::c01::STAGES[props::c01::STAGE.load(std::sync::atomic::Ordering::Relaxed) as usize % 7];
+                *PANIC_NOTE.lock().unwrap() = format!("{} @ {}: {}", stage, loc, msg);
+            }));
+            let (fam, ex): (std::sync::Arc<dyn families::Family>, std::sync::Arc<sweep::Exercise>) = match mode {
+                "c01-release" => (props::c01::families(tier, "release").swap_remove(fi).0, std::sync::Arc::new(with_note(props::c01::exercise))),
+                "c01-dev" => (props::c01::families(tier, "dev").swap_remove(fi).0, std::sync::Arc::new(with_note(props::c01::exercise))),
+                _ => {
+                    eprintln!("unknown worker mode {}", mode);
+                    std::process::exit(2)
+                }
+            };
+            sweep::worker(fam, ex, start, end, &args[7], &args[8], budget)
+        }
         _ => 2,
     };
     std::process::exit(code);
+}
+
+/// developer aid: time every rung of the scale ladder at its largest sizes (in-process, release)
+pub fn ladder_timing() {
+    for r in ladder::rungs() {
+        for n in [r.max / 2, r.max] {
+            let case = (r.build)(n);
+            let t = std::time::Instant::now();
+            alloc::reset();
+            let mut p = cform::new_parser(None);
+            for h in &case.prior {
+                p.parse_bytes(h);
+            }
+            let res = p.parse_bytes(&case.input);
+            let c = alloc::read();
+            println!("{:<55} n={:<6} len={:<6} elems={:<5} {:>8.1} ms  total_alloc={:>12} peak={:>12}", r.name, n, case.input.len(), res.len(), t.elapsed().as_secs_f64() * 1e3, c.total, c.peak);
+        }
+    }
 }
